@@ -271,3 +271,67 @@ Section DecodeProofs.
       + destruct (unmarshal false _ _); discriminate.
   Qed.
 End DecodeProofs.
+
+(** * Placed data is always an attachment *)
+Lemma pick_in buffers n b : pick buffers n = Ok b -> In b (tl buffers).
+Proof.
+  intros H. destruct (pick_spec buffers n) as [_ P]. destruct (P b H) as [_ Hn].
+  destruct buffers as [|p bs]; simpl in *; [discriminate|].
+  eapply nth_error_In; exact Hn.
+Qed.
+
+Definition seq_bins := fix go (l : list value) : list bytes :=
+  match l with [] => [] | x :: l' => bins_of x ++ go l' end.
+
+Lemma recon_value_bins buffers s : forall v,
+  recon_value buffers s = Ok v -> forall b, In b (bins_of v) -> In b (tl buffers).
+Proof.
+  induction s as [| ph | n | l IH] using shape_ind'; cbn [recon_value]; intros v Hv b Hb.
+  - inversion Hv; subst; simpl in Hb; contradiction.
+  - destruct ph as [n|]; [|discriminate]. apply rbind_ok in Hv as (x & Hp & Hx).
+    inversion Hx; subst. simpl in Hb. destruct Hb as [<-|[]]. eapply pick_in; eauto.
+  - apply rbind_ok in Hv as (x & Hp & Hx).
+    inversion Hx; subst. simpl in Hb. destruct Hb as [<-|[]]. eapply pick_in; eauto.
+  - apply rbind_ok in Hv as (vs & Hgo & Hx). inversion Hx; subst; clear Hx.
+    change (In b (seq_bins vs)) in Hb.
+    revert vs Hgo Hb. induction IH as [|x l Hx Hl IHl]; intros vs Hgo Hb.
+    + inversion Hgo; subst. simpl in Hb. contradiction.
+    + apply rbind_ok in Hgo as (v & Hv & Hgo). apply rbind_ok in Hgo as (vs' & Hvs & Hgo).
+      inversion Hgo; subst; clear Hgo. cbn [seq_bins] in Hb.
+      apply in_app_or in Hb as [Hb|Hb]; [eapply Hx; eauto | eapply IHl; eauto].
+Qed.
+
+Lemma recon_values_bins buffers l : forall vs,
+  recon_values buffers l = Ok vs -> forall b, In b (concat (map bins_of vs)) -> In b (tl buffers).
+Proof.
+  induction l as [|x l IH]; cbn [recon_values]; intros vs Hvs b Hb.
+  - inversion Hvs; subst. simpl in Hb. contradiction.
+  - apply rbind_ok in Hvs as (v & Hv & Hvs). apply rbind_ok in Hvs as (vs' & Hvs' & Hvs).
+    inversion Hvs; subst; clear Hvs. simpl in Hb.
+    apply in_app_or in Hb as [Hb|Hb]; [eapply recon_value_bins; eauto | eapply IH; eauto].
+Qed.
+
+Lemma map_const_bins {A} (l : list A) : concat (map bins_of (map (fun _ => VOther) l)) = [].
+Proof. induction l; simpl; auto. Qed.
+
+(** Whatever the JSON library answers and whatever the placeholders say, every byte slice that
+    decode places into a value is one of the packet's attachment frames - never the JSON payload
+    (buffers[0]) and never data from elsewhere. *)
+Lemma decode_bins unmarshal r ntypes vs :
+  decode unmarshal r ntypes = Ok vs ->
+  forall b, In b (concat (map bins_of vs)) -> In b (tl (r_buffers r)).
+Proof.
+  unfold decode. destruct (Nat.eqb_spec (length (r_buffers r)) 1) as [E|E].
+  - intros H b Hb. exfalso.
+    apply rbind_ok in H as (p & _ & H).
+    destruct (is_event _).
+    + destruct p; [discriminate|]. destruct (unmarshal false _ _); [|discriminate].
+      apply rbind_ok in H as (vals & _ & H). inversion H; subst. now rewrite (map_const_bins vals) in Hb.
+    + destruct (_ && _).
+      * destruct (unmarshal true _ _); [|discriminate]. inversion H; subst. first [ now (simpl in Hb) | match type of Hb with In _ (concat (map bins_of (map _ ?l))) => now rewrite (map_const_bins l) in Hb end ].
+      * destruct (unmarshal false _ _); [|discriminate]. inversion H; subst. first [ now (simpl in Hb) | match type of Hb with In _ (concat (map bins_of (map _ ?l))) => now rewrite (map_const_bins l) in Hb end ].
+  - unfold reconstruct. destruct (_ <? 1)%nat; [discriminate|].
+    intros H. apply rbind_ok in H as (p & _ & H).
+    destruct (_ && _); [discriminate|]. destruct (unmarshal false p _); [|discriminate].
+    apply rbind_ok in H as (vals & _ & H). intros b Hb. eapply recon_values_bins; eauto.
+Qed.
